@@ -21,5 +21,6 @@ CONSTANTS
   ViaClasses = {"transaction"}
   CbFeeClasses = {"cf0"}
   AlgStride = 1
+  CbStride = 1
   ShapeStride = 1
 INVARIANTS TypeOK KeychainMatrixOK ViewMatrixOK NeverGarbage OtherSeedNothing OwnFormatOnly ProofsVerify SiblingsOK EmitOut
